@@ -436,10 +436,21 @@ WithDirArgs(P, args) ==
         IF HasArgExpr(P.items[i]) /\ args[i].t = "int" THEN [P.items[i] EXCEPT !.n = args[i].v] ELSE P.items[i]]]
 
 \* result: [t |-> "ok" | "err" | "skip" (not size-static / beyond the native path), out, syms]
+\* literals are checked when the text is parsed (Semantics.LitStatus): a malformed number or
+\* string escape anywhere in an item's expressions is an error, evaluated or not
+ItemLitStatus(it) ==
+    Worst(IF it.k \in {"const", "res", "align", "addr"} /\ it.e.k # "none" THEN LitStatus(it.e) ELSE "ok",
+          IF it.k = "data" THEN LitStatusSeq(it.es, 1) ELSE "ok")
+ProgLitStatus(P) ==
+    LET RECURSIVE W(_)
+        W(i) == IF i > Len(P.items) THEN "ok" ELSE Worst(ItemLitStatus(P.items[i]), W(i + 1))
+    IN W(1)
+
 RECURSIVE Assemble(_)
 Assemble(P) ==
     LET d == Declare(P.items, 1, <<>>, {}, <<>>, <<>>) IN
-    IF ~d.ok THEN [t |-> "err", why |-> "declaration", out |-> <<>>, syms |-> <<>>]
+    IF ProgLitStatus(P) = "bad" THEN [t |-> "err", why |-> "literal", out |-> <<>>, syms |-> <<>>]
+    ELSE IF ~d.ok THEN [t |-> "err", why |-> "declaration", out |-> <<>>, syms |-> <<>>]
     ELSE IF \E i \in 1..Len(P.items) : HasArgExpr(P.items[i])
     THEN LET args == DirArgs(P, d)
              st == {DirArgStatus(args[i]) : i \in {i \in 1..Len(P.items) : HasArgExpr(P.items[i])}}
